@@ -65,6 +65,50 @@ class _Inert(types.ModuleType):
 INERT = ("networkx", "matplotlib", "sb3_contrib", "stable_baselines3", "torch")
 
 
+def _math_stub():
+    """`math` with the float-only entry points made exact for model scalars (A1): fsum is the exact sum, sqrt/fabs go
+    through the model; everything else is the real module (factorial, comb, gcd, ... on concrete integers)."""
+    import math as _math
+    from fractions import Fraction
+    from .core import SB, SV
+    m = types.ModuleType("math")
+    for k in dir(_math):
+        if not k.startswith("__"):
+            setattr(m, k, getattr(_math, k))
+
+    def _sym(x):
+        return isinstance(x, SV)
+
+    def fsum(it):
+        tot = SV(c=Fraction(0))
+        for x in it:
+            tot = tot + SV.lift(x)
+        return tot
+
+    def sqrt(x):
+        return symnp.sqrt(x) if _sym(x) else _math.sqrt(x)
+
+    def fabs(x):
+        return abs(x) if _sym(x) else _math.fabs(x)
+
+    def isnan(x):
+        return False if _sym(x) else _math.isnan(x)
+
+    def isinf(x):
+        return False if _sym(x) else _math.isinf(x)
+
+    def isfinite(x):
+        return True if _sym(x) else _math.isfinite(x)
+
+    def _intarg(f):
+        def g(*a):
+            return f(*[int(x) if _sym(x) else x for x in a])
+        return g
+    m.fsum, m.sqrt, m.fabs, m.isnan, m.isinf, m.isfinite = fsum, sqrt, fabs, isnan, isinf, isfinite
+    m.factorial, m.comb, m.gcd = _intarg(_math.factorial), _intarg(_math.comb), _intarg(_math.gcd)
+    return m
+
+
 def _gym_stub():
     m = types.ModuleType("gymnasium")
 
@@ -111,6 +155,7 @@ class Package:
         self.pkg.__path__ = [self.root]
         sys.modules[self.name] = self.pkg
         self.stubs.setdefault("gymnasium", _gym_stub())
+        self.stubs.setdefault("math", _math_stub())
         for nm in INERT:
             self.stubs.setdefault(nm, _Inert(nm))
 
